@@ -32,11 +32,18 @@ def plan(tier, seed):
                     + [{"t": "array", "v": [2, 0, 1]}, {"t": "array", "v": [0, 1, 2]}],
                     iforms=[{"t": "int", "v": 0}, {"t": "int", "v": 1}, {"t": "int", "v": -1},
                             {"t": "slice", "v": [None, None, None]}, {"t": "slice", "v": [0, 2, None]}], stride=1)
+    # list / list indexing with many (row, column) pairs (more than any internal batch size)
+    long_r = [(i // 3) % 2 for i in range(37)]       # (no period that divides a power of two)
+    long_c = [(i // 5) % 2 for i in range(37)]
+    longlist = dict(seeds=[L[n] for n in ["D22", "D23", "D32c", "Dg2c", "I3", "P3", "S33", "Td3", "K22", "H2c", "Sc3"]],
+                    operands=[L["D23"]], small=[L["D22c"]], acts={"op_getitem"}, lvl=1, dim=40,
+                    iforms=[{"t": "list", "v": long_r}, {"t": "list", "v": long_c},
+                            {"t": "list", "v": [-1 - x for x in long_r]}], forms=forms[:1], stride=1)
     if tier == "quick":
         ops = [L[n] for n in ["D23", "D32c", "Dg2c"]]
         small = [L["D22c"], L["D23"]]
         return [
-            nested, declared,
+            nested, declared, longlist,
             dict(seeds=all_leaves, operands=ops, small=small, acts={"op_getitem"}, lvl=1, dim=12, iforms=iforms,
                  forms=forms, stride=1),
             dict(seeds=all_leaves, operands=ops, small=small, acts=BASE | {"op_getitem"}, lvl=2, dim=6,
@@ -45,7 +52,7 @@ def plan(tier, seed):
     ops = [L[n] for n in ["D22", "D23", "D32c", "Dg2c", "I2", "P3", "S33", "R0"]]
     small = [L["D22c"], L["D23"]]
     return [
-        nested, declared,
+        nested, declared, longlist,
         dict(seeds=all_leaves, operands=ops, small=small, acts={"op_getitem"}, lvl=1, dim=12, iforms=iforms,
              forms=forms, stride=1),
         dict(seeds=all_leaves, operands=ops, small=small, acts=BASE | {"op_getitem"}, lvl=2, dim=9, iforms=iforms,
@@ -131,6 +138,18 @@ def observe(c):
             except Exception as e:  # noqa: BLE001
                 V("matmul", f"A[..] @ X[{xdt}] raised {type(e).__name__}: {str(e)[:150]}", xdt=xdt,
                   **common.exc_info(e))
+        # the same lazy slice multiplied into two operands while the first result is still held: results of earlier
+        # products must not change (buffers reused between calls)
+        try:
+            X1 = opsfam.rhs_for(exp.shape[1], 2, dt, salt + 3)
+            X2 = opsfam.rhs_for(exp.shape[1], 2, dt, salt + 4)
+            R1 = R @ X1
+            keep = np.array(R1, copy=True)
+            R @ X2
+            if not np.array_equal(np.asarray(R1), keep):
+                V("matmul", "the result of an earlier product A[..] @ X1 changed when A[..] @ X2 was formed", held=True)
+        except Exception:  # noqa: BLE001   (reported above)
+            pass
         return out
     if isinstance(R, cola.ops.LinearOperator):
         V("type", f"expected a {kind}, got operator {type(R).__name__}")
